@@ -87,6 +87,32 @@ class BSplineGenerator final {
   };
 
   /*!
+   * @brief Default copy constructor.
+   * @param g The generator to copy.
+   */
+  BSplineGenerator(const BSplineGenerator &g) = default;
+
+  /*!
+   * @brief Default destructor.
+   */
+  ~BSplineGenerator() = default;
+
+  /*!
+   * Copy assignment operator. The knots are copied before this generator is
+   * touched, so the generator is left unchanged if the copy throws.
+   *
+   * @brief Copy assignment operator.
+   * @param g The generator to copy.
+   * @returns A reference to this generator.
+   */
+  BSplineGenerator &operator=(const BSplineGenerator &g) {
+    std::vector<T> knots(g._knots);
+    _grid = g._grid;
+    _knots = std::move(knots);
+    return *this;
+  }
+
+  /*!
    * @brief Returns the grid.
    * @returns The _grid member of this instance.
    */
